@@ -12,6 +12,7 @@ import Hannibal.Monitor.C13
 import Hannibal.Monitor.C14
 import Hannibal.Monitor.C15
 import Hannibal.Monitor.C17
+import Hannibal.Monitor.C17R
 /- Registry: property id → monitor run on one actor's labels (index of first violation). -/
 namespace Hannibal.Driver
 open Hannibal
@@ -62,7 +63,9 @@ def runMonitor (pid : String) (c : MonCtx) (ls : List Label) : Option (Option Na
       | some k => some k
       | none => match ff (monC13q c) ls with
         | some k => some k
-        | none => ff (monC02wf c) ls)   -- hypothesis of `C13q_holds`: operation ids are fresh
+        | none => match ff (monC13f c) ls with   -- fairness of the tie-break (statistical, trace-only)
+          | some k => some k
+          | none => ff (monC02wf c) ls)   -- hypothesis of `C13q_holds`: operation ids are fresh
   | "C14" => some (ff (monC14 c) ls)
   | "C15" => some (match ff (monC15 c) ls with
       | some k => some k
@@ -71,7 +74,9 @@ def runMonitor (pid : String) (c : MonCtx) (ls : List Label) : Option (Option Na
       | some k => some k
       | none => match ff (monC17n c) ls with
         | some k => some k
-        | none => match ff (monC02wf c) ls with     -- hypotheses of `C17n_holds`: fresh operation ids,
+        | none => match ff (monC17r c) ls with      -- join / consume resolve once the actor has terminated
+         | some k => some k
+         | none => match ff (monC02wf c) ls with     -- hypotheses of `C17n_holds`: fresh operation ids,
           | some k => some k
           | none => ff monC17nwf ls)                -- and `consume(self)` is the last use of the owning address
   | _ => none
